@@ -54,12 +54,20 @@ def acceptable(kind, value, tree):
 
 
 def pack_banner_acceptable(inside, beside, packname):
-    """inside: names directly in the pack; beside: names next to the pack directory."""
+    """
+    inside: names directly in the pack; beside: names next to the pack directory.
+    Returns (acceptable answers, whether None is acceptable).  "Carrying the pack's name" is exact for the
+    answer that is demanded; a name that differs from pack name + extension only by letter case is
+    tolerated as an answer (the statement does not say), never demanded.
+    """
     for ext in IMAGE_PRIORITY:
         hits = {("in", n) for n in inside if n.lower().endswith(ext)}
         if hits:
-            return hits
+            return hits, False
+    exact = set()
     for ext in IMAGE_PRIORITY:
         if packname + ext in beside:
-            return {("beside", packname + ext)}
-    return set()
+            exact = {("beside", packname + ext)}
+            break
+    loose = {("beside", n) for n in beside for ext in IMAGE_PRIORITY if n.lower() == (packname + ext).lower()}
+    return exact | loose, not exact
